@@ -167,14 +167,19 @@ def mqNewReqs (s : Mq) (qi seq : Nat) (c : MqCmd) : List MqReq :=
 
 theorem Mq.start_cases (s : Mq) (qi : Nat) (q : MqQueue) :
     ((q.cmds = [] ∨ q.running = true) ∧ s.start qi q = (s, q, false)) ∨
-    ∃ c rest, q.cmds = c :: rest ∧ q.running = false ∧
+    (∃ c rest, q.cmds = c :: rest ∧ q.running = false ∧ mqNewReqs s qi q.done c ≠ [] ∧
       s.start qi q =
         ({ s with toSend := s.toSend ++ mqFlushReqs s qi q.done c,
                   awaiting := s.awaiting ++ mqPieceReqs (s.nextId + (mqFlushReqs s qi q.done c).length) qi q.done c,
                   nextId := s.nextId + (mqNewReqs s qi q.done c).length,
                   cyclesLeft := if c.kind = .h2d then (s.cycH2D : Int) else (s.cycD2H : Int),
                   created := s.created ++ mqNewReqs s qi q.done c },
-         { q with running := true, reqs := (mqNewReqs s qi q.done c).map (·.id) }, true) := by
+         { q with running := true, reqs := (mqNewReqs s qi q.done c).map (·.id) }, true)) ∨
+    (∃ c rest, q.cmds = c :: rest ∧ q.running = false ∧ mqNewReqs s qi q.done c = [] ∧
+      s.start qi q =
+        ({ s with cyclesLeft := if c.kind = .h2d then (s.cycH2D : Int) else (s.cycD2H : Int),
+                  completed := s.completed ++ [(qi, q.done)] },
+         { q with cmds := rest, running := false, reqs := [], done := q.done + 1 }, true)) := by
   unfold Mq.start
   split
   · rename_i h; exact .inl ⟨.inl h, rfl⟩
@@ -182,8 +187,17 @@ theorem Mq.start_cases (s : Mq) (qi : Nat) (q : MqQueue) :
     split
     · rename_i hr; exact .inl ⟨.inr hr, rfl⟩
     · rename_i hr
-      refine .inr ⟨c, rest, h, by simpa using hr, ?_⟩
-      simp only [mqNewReqs, List.length_append, List.append_assoc, Nat.add_assoc]
+      simp only
+      split
+      · rename_i he
+        have he' := List.isEmpty_iff.1 he
+        obtain ⟨hfl, hps⟩ := List.append_eq_nil_iff.1 he'
+        refine .inr (.inr ⟨c, rest, h, by simpa using hr, he', ?_⟩)
+        rw [hps, hfl]
+        simp only [List.append_nil, List.length_nil, Nat.add_zero]
+      · rename_i he
+        refine .inr (.inl ⟨c, rest, h, by simpa using hr, fun e => he (List.isEmpty_iff.2 e), ?_⟩)
+        simp only [mqNewReqs, List.length_append, List.append_assoc, Nat.add_assoc]
 
 theorem mqFlushReqs_length (s : Mq) (qi seq : Nat) (c : MqCmd) :
     (mqFlushReqs s qi seq c).length = if c.flush then s.nGpus else 0 := by
